@@ -11,7 +11,14 @@
       automaton is unambiguous.
     - [C09_fallback_transparent_spec]: at the level of the specification [Spec.Meaning] and of the
       model of the level-assignment pass ([Check.propagate]), replacing every [||] by [|] changes
-      neither which command lines are matched nor (up to levels) which items may follow them.
+      neither which command lines are matched nor (up to levels and descriptions) which items may
+      follow them.
+    - [C09_fallback_transparent_check]: the same for the whole model of check.rs on *source*
+      grammars: if [Check.from_grammar] accepts a grammar and its [|] variant, the two validated
+      trees are matched by the same command lines (every tree-rewriting pass -- descriptions,
+      specialisation, resolution of definitions in the computed order, collapsing of within-word
+      expressions, level assignment -- commutes with forgetting levels, descriptions and the
+      [||]/[|] distinction).
     - [C09_candidates_monotone_partial]: a candidate that no candidate of a lower level undercuts
       is offered ([lowest] never drops a candidate for another reason than an earlier level
       having one).
@@ -21,7 +28,7 @@
     on every run by execution instead (lib/vf/checks/c09.py: Rust's automaton for the [||] grammar
     against the one for its [|] variant in real bash). *)
 From CG Require Import Base.Prelude Model.Ast Model.Check Model.Dfa Spec.Rx Spec.Meaning Spec.TokAut Spec.Ambig
-     Proofs.MeaningFacts Proofs.MeaningLevels Proofs.AmbigFacts.
+     Proofs.MeaningFacts Proofs.MeaningLevels Proofs.CheckBar Proofs.AmbigFacts.
 
 Definition known_C09 (c : cdfa) : bool :=
   match Ambig.find c with Some _ => true | None => false end.
@@ -76,6 +83,19 @@ Check C09_fallback_transparent_spec :
         (exists a, In a (map fst (moves (run en (start (propagate (bar_of_barbar e) 0)) ws))) /\ erase_l a = a0)
         <-> (exists a, In a (map fst (moves (run en (start (propagate e 0)) ws))) /\ erase_l a = a0).
 Print Assumptions C09_fallback_transparent_spec.
+
+Theorem C09_fallback_transparent_check :
+  forall builtins g sh v v' en ws,
+    from_grammar builtins g sh = Ok v ->
+    from_grammar builtins (bar_grammar g) sh = Ok v' ->
+    matched en (v_expr v') ws = matched en (v_expr v) ws.
+Proof. exact from_grammar_bar_matched. Qed.
+Check C09_fallback_transparent_check :
+  forall builtins g sh v v' en ws,
+    from_grammar builtins g sh = Ok v ->
+    from_grammar builtins (bar_grammar g) sh = Ok v' ->
+    matched en (v_expr v') ws = matched en (v_expr v) ws.
+Print Assumptions C09_fallback_transparent_check.
 
 Theorem C09_candidates_monotone_partial :
   forall cs l c, In (l, c) cs -> (forall l' c', In (l', c') cs -> l <= l') -> In c (lowest cs).
